@@ -261,6 +261,14 @@ int count(const bool[] p) { int n = 0; for (int i = 0; i < p.length; i += 1) { i
 empty show(const byte[] p, const string[] q) { write(p); write(p.length); for (int i = 0; i < q.length; i += 1) { write(q[i]); } write(q.length); }
 empty @is_you(int a, byte d) { write(sum([a, a + 1, 10, 20])); write(sum([a])); writeln([d, '!']); show([d, d, 'x'], ["p", "qq"]); write(count([a > 0, true, a == 3])); write(sum([sum([a, 1]), sum([2, a, 3])]));
   int[] keep = [a, 9]; write(sum(keep)); write([a, 5, 6].length); write([d, 66][1]); }''', [['3', '65'], ['-1', '90']]),
+    ('access_modes', '''const int[] CG = [1, 2, 3]; int[] MG = [4, 5, 6]; const byte[] CB = ['a', 'b']; byte[] MB = ['c', 'd']; const string[] CS = ["x", "yy"];
+int first(const int[] a) { return a[0] * 10 + a.length; } int last(const int[] a) { return a[a.length - 1]; }
+empty show(const byte[] b) { write(b); write(b.length); write(b[0]); } int slen(const string[] s) { int n = 0; for (int i = 0; i < s.length; i += 1) { n += s[i].length; } return n; }
+empty bump(int[] a) { a[0] += 1; MG[1] += 1; }
+empty @is_you(int k, const int[] ev) { byte[] eb = ['m', (k is byte)]; int[] ml = [k, 8]; const int[] cl = [k, 9, k];
+  write(first(CG)); write(first(MG)); write(first(ml)); write(first(cl)); write(first(ev)); write(first([k, 1])); write(first([7, 7, 7])); write(last(CG)); write(last(ml)); write(last(ev));
+  show(CB); show(MB); show(eb); show("lit"); show(['q', (k is byte)]); show([90, 91]); write(slen(CS)); write(slen(["a", "bcd"]));
+  bump(MG); bump(ml); write(MG[0]); write(MG[1]); write(ml[0]); eb[0] = 'Z'; show(eb); write(first(MG)); }''', [['3', '10', '20', '65'], ['0', '5']]),
     ('aliasing', '''empty inc(int[] a) { for (int i = 0; i < a.length; i += 1) { a[i] += 1; } }
 int first(const int[] a) { return a[0]; }
 empty @is_you(int n) { int[] a = [n, 2, 3]; int[] b = a; b[0] = 10; write(a[0]); inc(a); write(b[0]); write(first(b)); const int[] c = [7, 8]; write(first(c)); bool[] f = [true, false]; bool[] h = f; h[1] = true; write(f[1]);
